@@ -94,6 +94,7 @@ fn run_f64(tape: &[u32], st: &mut Stats, max_size: usize, nondiff_pct: u32) -> C
     // candidate points; the reference decides which are in the interior of the domain
     let mut points: Vec<Vec<f64>> = vec![];
     let mut refs: Vec<(f64, f64)> = vec![];
+    let mut senss: Vec<(f64, f64)> = vec![];
     let mut tries = 0;
     while points.len() < 6 && tries < 24 {
         tries += 1;
@@ -110,8 +111,29 @@ fn run_f64(tape: &[u32], st: &mut Stats, max_size: usize, nondiff_pct: u32) -> C
         let mut ok = true;
         let r = eval_ct(&tree, &full, &mut ok);
         if ok && r.d.v.is_finite() && r.d.d.is_finite() {
-            points.push(p);
-            refs.push((r.d.v, r.d.d));
+            // conditioning of both derivatives at this point
+            let mk = |q: &[f64]| -> Vec<Dual<Dual<f64>>> {
+                let mut fl = full.clone();
+                for (pos, vi) in idxs.iter().enumerate() {
+                    fl[*vi].v.v = q[pos];
+                }
+                fl
+            };
+            let f1 = |q: &[f64]| {
+                let mut o = true;
+                let r = eval_ct(&tree, &mk(q), &mut o);
+                o.then_some(r.d.v)
+            };
+            let f2 = |q: &[f64]| {
+                let mut o = true;
+                let r = eval_ct(&tree, &mk(q), &mut o);
+                o.then_some(r.d.d)
+            };
+            if let (Some(s1), Some(s2)) = (sensitivity(&f1, &p), sensitivity(&f2, &p)) {
+                points.push(p);
+                refs.push((r.d.v, r.d.d));
+                senss.push((s1, s2));
+            }
         }
     }
     let has_nondiff = ct_has_any_nondiff(&tree);
@@ -154,14 +176,14 @@ fn run_f64(tape: &[u32], st: &mut Stats, max_size: usize, nondiff_pct: u32) -> C
                 st.class("operator without rule: Ok returned, compared with the true derivative");
             }
             for (k, (lib, r)) in vals.iter().zip(refs.iter()).enumerate() {
-                if !close(lib.0, r.0, 1e-6) {
+                if !close_cond(lib.0, r.0, 1e-6, senss[k].0) {
                     return Err(fail(
                         if has_nondiff { "C05/wrong-derivative-instead-of-error" } else { "C05/first-derivative" },
                         format!("d/d{} of `{text}` at {:?}: library {} (`{dtext}`), true derivative {}", names[i], points[k], lib.0, r.0),
                         describe(json!({"point": points[k], "library": lib.0, "reference": r.0, "derivative_text": dtext})),
                     ));
                 }
-                if !close(lib.1, r.1, 1e-5) {
+                if !close_cond(lib.1, r.1, 1e-5, senss[k].1) {
                     return Err(fail(
                         if has_nondiff { "C05/wrong-derivative-instead-of-error" } else { "C05/second-derivative" },
                         format!("d/d{} d/d{} of `{text}` at {:?}: library {}, true derivative {}", names[j], names[i], points[k], lib.1, r.1),
